@@ -223,7 +223,7 @@ func (x *Exec) installDump(t types.Type, v interface{}, blk, off, tag int) {
 			ft := u.Field(i).Type()
 			ftag := tag
 			if _, isArr := ft.Underlying().(*types.Array); isArr {
-				ftag++
+				ftag += fieldTag(t, i)
 			}
 			x.installDump(ft, el[i], blk, off+fieldMemOffset(u, i), ftag)
 		}
